@@ -137,7 +137,32 @@ def section_typing(serif, out):
     out.append("")
 
 
-SECTIONS = [section_typing]
+def section_fingerprint(serif, out):
+    """Vector._FP_P / _FP_B and the literals returned by _hash_element for None and NaN (read from the AST)"""
+    from serif import Vector
+    P, B = int(Vector._FP_P), int(Vector._FP_B)
+    src = open(os.path.join(SRC, "serif", "vector.py")).read()
+    tree = ast.parse(src)
+    none_hash = nan_hash = None
+    for node in ast.walk(tree):
+        if isinstance(node, ast.FunctionDef) and node.name == "_hash_element":
+            for sub in ast.walk(node):
+                if isinstance(sub, ast.If) and sub.body and isinstance(sub.body[0], ast.Return) \
+                        and isinstance(sub.body[0].value, ast.Constant) and isinstance(sub.body[0].value.value, int):
+                    test = ast.unparse(sub.test)
+                    if "is None" in test and none_hash is None:
+                        none_hash = sub.body[0].value.value
+                    elif "isnan" in test and nan_hash is None:
+                        nan_hash = sub.body[0].value.value
+    out.append("/-- `Vector._FP_P`, `Vector._FP_B` and the hash literals of `_hash_element` (0 = not found) -/")
+    out.append(f"def FP_P : Nat := {P}")
+    out.append(f"def FP_B : Nat := {B}")
+    out.append(f"def NONE_HASH : Nat := {none_hash or 0}")
+    out.append(f"def NAN_HASH : Nat := {nan_hash or 0}")
+    out.append("")
+
+
+SECTIONS = [section_typing, section_fingerprint]
 
 
 def generate():
